@@ -223,6 +223,9 @@ func (e *Enc) applyContract(st *State, ct *Contract, c *ssa.CallCommon, key stri
 		sc.vtypes[n] = argTypes[i]
 	}
 	short := calleeShort(key)
+	if len(ct.Requires) > 0 {
+		e.useLemmas(st)
+	}
 	for i, cl := range ct.Requires {
 		t, err := sc.evalBool(cl.Expr)
 		if err != nil {
